@@ -4,6 +4,8 @@ import Proofs.Lemmas.Cpm
 import Proofs.Lemmas.Memo
 import Generated.C10VmLocks
 import Generated.C10PathLocks
+import Proofs.Lemmas.Publish
+import Generated.C10Publish
 /-!
 # C10 — VM registries stay consistent under concurrent definition and lookup
 
@@ -30,6 +32,12 @@ Property theorems only.
   section that observed it, not when it is recorded after the section has been left; the discipline is
   read off `Generated.C10VmLocks.auxFacts` (every access of state the translator has no table for, by
   a method on the resolution path).
+
+* `Model.Publish` — what is PUT INTO the registry: a declaration object built by a sequence of field writes
+  and inserted (published) at some point of that sequence; other goroutines see the object as it is at the
+  moment of their lookup.  Observers only ever see finished objects iff no write follows the publication;
+  the discipline is read off `Generated.C10Publish.pubFacts` (every `AddClass` / `AddInterface` / `AddFunc` /
+  `SetConstant` call of parser/, node/, runtime/ with the writes to the published object after it).
 
 Trusted, not proved: `sync.RWMutex` behaves as `Model.RW.enter/leave`; Go's memory
 model (accesses that never overlap conflictingly behave atomically).  The race
@@ -430,6 +438,182 @@ theorem C10_memo_linearizable_generated (progs : Tid → List Model.Memo.Op) (sc
   have hd := memoDisc_ok_of_disciplined _ C10_vm_aux_disciplined.1
   obtain ⟨_, h2, h3⟩ := C10_memo_linearizable generatedMemoDisc hd progs sched
   exact ⟨h2, h3, C10_memo_registered_visible generatedMemoDisc hd⟩
+
+/-! ## Publication: what is put into the registry is finished (round 7)
+
+A registration publishes a POINTER.  `Model.Publish`: the registrant of object `o` runs its program (field
+writes and one `publish`), any number of goroutines look `o` up at any time and get a miss or the object as
+it is at that moment.  The user's reading of "register class C" is one step: a lookup misses or returns the
+finished class (`specLook`). -/
+
+/-- every observation of every schedule returns a finished object -/
+def PublishComplete (progs : Nat → Model.Publish.Prog) : Prop :=
+  ∀ sched : List Model.Publish.Ev, ∀ e ∈ (Model.Publish.run (Model.Publish.init progs) sched).log,
+    ∀ h, e.2.2 = some h → h = Model.Publish.final (progs e.2.1)
+
+/-- **What an observer can miss.** For EVERY program (any discipline), any number of objects and observing
+goroutines, every schedule: an object returned by a lookup lacks, compared with the finished object, only
+writes that follow the publication step in its registrant's program — `seen ++ missing = final`,
+`missing ⊆ postWrites`. -/
+theorem C10_publish_lacks_only_post_writes (progs : Nat → Model.Publish.Prog) (sched : List Model.Publish.Ev) :
+    ∀ e ∈ (Model.Publish.run (Model.Publish.init progs) sched).log, ∀ h, e.2.2 = some h →
+      ∃ m, h ++ m = Model.Publish.final (progs e.2.1) ∧ ∀ x ∈ m, x ∈ Model.Publish.postWrites (progs e.2.1) := by
+  intro e he h hh
+  obtain ⟨n, hn⟩ := (Proofs.Publish.inv_run progs _ (Proofs.Publish.inv_init progs) sched).log e he
+  rw [hn, Proofs.Publish.look_stepN] at hh
+  split at hh
+  · rename_i hc
+    cases hh
+    exact Proofs.Publish.seen_lacks_post _ n hc
+  · cases hh
+
+/-- **Linearizable publication** (full strength): observers only ever see finished objects — under every
+schedule, for any number of objects and goroutines — IF AND ONLY IF no registrant writes to its object after
+publishing it.  (⇐: the publication step is the linearization point of the whole construction; ⇒: stop the
+registrant right after `publish` and look.) -/
+theorem C10_publish_complete_iff (progs : Nat → Model.Publish.Prog) :
+    PublishComplete progs ↔ ∀ o, (progs o).ok = true := by
+  constructor
+  · intro hc o
+    by_cases hp : Model.Publish.postWrites (progs o) = []
+    · simp [Model.Publish.Prog.ok, hp]
+    · exfalso
+      obtain ⟨h1, h2⟩ := Proofs.Publish.at_pubIdx (progs o) hp
+      let sched := List.replicate (Model.Publish.pubIdx (progs o)) (Model.Publish.Ev.reg o) ++ [Model.Publish.Ev.obs 0 o]
+      obtain ⟨ho, hl⟩ := Proofs.Publish.run_regs (Model.Publish.init progs) o (Model.Publish.pubIdx (progs o))
+      have hlog : (Model.Publish.run (Model.Publish.init progs) sched).log =
+          [(0, o, some (Model.Publish.inits ((progs o).take (Model.Publish.pubIdx (progs o)))))] := by
+        simp only [sched, Model.Publish.run, List.foldl_append, List.foldl_cons, List.foldl_nil, Model.Publish.step]
+        simp only [Model.Publish.run] at ho hl
+        rw [hl, ho]
+        have h1' : Model.Publish.Step.publish ∈ List.take (Model.Publish.pubIdx (progs o)) (progs o) := by
+          simpa using h1
+        simp [Model.Publish.init, Proofs.Publish.look_stepN, h1']
+      have := hc sched _ (by rw [hlog]; exact List.mem_singleton.mpr rfl) _ rfl
+      simp only [Model.Publish.final] at this
+      rw [this] at h2
+      exact hp (by simpa using h2)
+  · intro hok sched e he h hh
+    obtain ⟨m, hm, hsub⟩ := C10_publish_lacks_only_post_writes progs sched e he h hh
+    have hnil : Model.Publish.postWrites (progs e.2.1) = [] := by
+      simpa [Model.Publish.Prog.ok] using hok e.2.1
+    have : m = [] := by
+      cases m with
+      | nil => rfl
+      | cons x r => have := hsub x (by simp); rw [hnil] at this; cases this
+    subst this
+    simpa using hm
+
+/-- **Refinement of the one-step reading.** Under the discipline every logged observation is the answer of the
+specification in which registration is ONE step taken at the publication point (`specLook`: miss before,
+the FINISHED object after), for the number of steps the registrant had taken. -/
+theorem C10_publish_linearizable (progs : Nat → Model.Publish.Prog) (hok : ∀ o, (progs o).ok = true)
+    (sched : List Model.Publish.Ev) :
+    ∀ e ∈ (Model.Publish.run (Model.Publish.init progs) sched).log,
+      ∃ n, e.2.2 = Model.Publish.specLook (progs e.2.1) n := by
+  intro e he
+  obtain ⟨n, hn⟩ := (Proofs.Publish.inv_run progs _ (Proofs.Publish.inv_init progs) sched).log e he
+  refine ⟨n, ?_⟩
+  rw [hn, Proofs.Publish.look_stepN]
+  simp only [Model.Publish.specLook]
+  split
+  · rename_i hc
+    obtain ⟨m, hm, hsub⟩ := Proofs.Publish.seen_lacks_post (progs e.2.1) n hc
+    have hnil : Model.Publish.postWrites (progs e.2.1) = [] := by
+      simpa [Model.Publish.Prog.ok] using hok e.2.1
+    have : m = [] := by
+      cases m with
+      | nil => rfl
+      | cons x r => have := hsub x (by simp); rw [hnil] at this; cases this
+    subst this
+    simp only [List.append_nil] at hm
+    simp [Model.Publish.final, hm]
+  · rfl
+
+/-- the seeded shape: the class is registered, THEN the inherited constructor is stored -/
+def publishBeforeConstruct : Nat → Model.Publish.Prog :=
+  fun _ => [.init "Methods", .publish, .init "Construct"]
+
+/-- **Negation witness** (`ClassParser.Parse` with `AddClass` moved before the search for the inherited
+constructor): the registrant publishes, a lookup returns the class without `Construct`, the registrant
+stores it.  The harness finds the same on the real parser (publish stream). -/
+theorem C10_publish_counterexample : ¬ PublishComplete publishBeforeConstruct := by
+  intro h
+  have := h [.reg 0, .reg 0, .obs 1 0, .reg 0] (1, 0, some ["Methods"]) (by decide) _ rfl
+  revert this; decide
+
+/-- the unchanged shape: constructor resolved, then registered -/
+def constructBeforePublish : Nat → Model.Publish.Prog :=
+  fun _ => [.init "Methods", .init "Construct", .publish]
+
+example : PublishComplete constructBeforePublish :=
+  (C10_publish_complete_iff _).mpr (fun _ => by simp only [constructBeforePublish]; decide)
+
+/-- post-publication writes of the unchanged tree (deliberate in the source, each a window in which another
+goroutine sees the declaration without them; see notes/C10.md round 7): annotations are evaluated with the class
+registered (an annotation class may refer to it); an enum's cases are instances of the enum, created with `new`
+after the class is registered; an interface registers itself before its constants are evaluated ("avoid the
+self-dependency loop") and then normalises its parents' names. -/
+def knownPostPublicationWrites : List String := [
+  "parser/class_parser.go:ClassParser.Parse:AddClass(classStmt):callClassAnnotation→AddAnnotations()",
+  "parser/trait_parser.go:TraitParser.Parse:AddClass(trait):callClassAnnotation→AddAnnotations()",
+  "parser/enum_parser.go:EnumParser.Parse:AddClass(classStmt):StaticProperty.Store",
+  "parser/interface_parser.go:InterfaceParser.Parse:AddInterface(i):StaticProperty.Store",
+  "parser/interface_parser.go:InterfaceParser.Parse:AddInterface(i):Extends[]"]
+
+/-- **Obligation on the regenerated facts** (`Generated.C10Publish`, from parser/, node/, runtime/ on every
+run): no write to a published object after its publication, beyond the known ones; the scan found the
+registration sites it exists for.  (`AddClass` before `c.Construct = inherited` fails here with
+`…ClassParser.Parse:AddClass(classStmt):Construct`.) -/
+theorem C10_publication_disciplined :
+    (Model.Publish.pubViolations Generated.C10Publish.pubFacts).all (knownPostPublicationWrites.contains ·) = true ∧
+    Generated.C10Publish.shape = [] := by
+  decide
+
+/-- the program a fact describes has exactly the fact's `after` list as post-publication writes -/
+theorem postWrites_progOf (f : Model.Publish.PubFact) : Model.Publish.postWrites (Model.Publish.progOf f) = f.after := by
+  have h : ∀ (b : List String) (r : Model.Publish.Prog),
+      Model.Publish.afterPub (b.map .init ++ (.publish :: r)) = r := by
+    intro b r
+    induction b with
+    | nil => rfl
+    | cons x b ih => simpa [Model.Publish.afterPub] using ih
+  simp only [Model.Publish.postWrites, Model.Publish.progOf, List.append_assoc, List.singleton_append, h]
+  exact Proofs.Publish.inits_map_init _
+
+/-- **The regenerated sites.** Objects registered at the sites of the current source (object `k` by the
+`k`-th site; beyond the table: nothing), any number of observers, every schedule: an observed declaration
+lacks at most writes listed for its site in `knownPostPublicationWrites`'s terms — `seen ++ missing = final`
+with `missing ⊆ after` of that site; for a site with no write after the publication the observed declaration
+IS the finished one. -/
+theorem C10_publish_generated (sched : List Model.Publish.Ev) :
+    let progs : Nat → Model.Publish.Prog := fun k =>
+      (Generated.C10Publish.pubFacts[k]?.map Model.Publish.progOf).getD []
+    ∀ e ∈ (Model.Publish.run (Model.Publish.init progs) sched).log, ∀ h, e.2.2 = some h →
+      ∃ f, Generated.C10Publish.pubFacts[e.2.1]? = some f ∧
+        ∃ m, h ++ m = Model.Publish.final (Model.Publish.progOf f) ∧ (∀ x ∈ m, x ∈ f.after) ∧
+          (f.after = [] → h = Model.Publish.final (Model.Publish.progOf f)) := by
+  intro progs e he h hh
+  obtain ⟨m, hm, hsub⟩ := C10_publish_lacks_only_post_writes progs sched e he h hh
+  cases hf : Generated.C10Publish.pubFacts[e.2.1]? with
+  | none =>
+    exfalso
+    obtain ⟨n, hn⟩ := (Proofs.Publish.inv_run progs _ (Proofs.Publish.inv_init progs) sched).log e he
+    have hp : progs e.2.1 = [] := by simp [progs, hf]
+    rw [hn, hp, Proofs.Publish.look_stepN] at hh
+    simp at hh
+  | some f =>
+    have hp : progs e.2.1 = Model.Publish.progOf f := by simp [progs, hf]
+    rw [hp] at hm hsub
+    rw [postWrites_progOf] at hsub
+    refine ⟨f, rfl, m, hm, hsub, ?_⟩
+    intro hnil
+    have : m = [] := by
+      cases m with
+      | nil => rfl
+      | cons x r => have := hsub x (by simp); rw [hnil] at this; cases this
+    subst this
+    simpa using hm
 
 /-! ## Calls made of several sections: the autoload path (known finding)
 
